@@ -456,6 +456,8 @@ func (r *resolver) findMatch(ctx context.Context, requirements []resolve.Version
 			if err != nil {
 				return resolve.Version{}, err
 			}
+			// Sort and reverse a copy: the slice belongs to the client.
+			versions = slices.Clone(versions)
 			resolve.SortVersions(versions)
 			slices.Reverse(versions)
 		}
